@@ -573,7 +573,7 @@ fn drive_numeric(t: &mut Tracer, a: &Args, st: &mut Stats, rng: &Rng) {
         if !a.wants(subject) {
             continue;
         }
-        group(t, 40);
+        group(t, 8);
         for (fam, pool) in &pools {
             let pj = spool_json(pool);
             let n = pool.len();
@@ -922,6 +922,10 @@ fn drive_lexiter(t: &mut Tracer, a: &Args, st: &mut Stats, rng: &Rng) {
             st.add(subject, list.len() as u64 + 4);
             if !list.is_empty() {
                 st.case(subject, &[b"backward", &list.join("\n").into_bytes()]);
+            }
+            // (the builder hands out the same cursor type: the seek scripts run on the longer lists only)
+            if subject == "lexiter:builder_sortedvec" && fam.starts_with("exh") {
+                continue;
             }
             // 3. every probe: lower bound then scan, upper bound then scan
             for op in ["li_lower", "li_upper"] {
